@@ -424,12 +424,15 @@ pub fn stream_cmpstr(out: &mut impl Write, seed: u64, budget: usize) {
 // run concurrently.
 // ---------------------------------------------------------------------------
 
-struct SeamReader { first: u64, extra: u64, pos: u64 }
+struct SeamReader { first: u64, extra: u64, pos: u64, fail_at_end: bool }
 
 impl Read for SeamReader {
     fn read(&mut self, buf: &mut [u8]) -> std::io::Result<usize> {
         if buf.is_empty() { return Ok(0); }
         let end = if self.pos < self.first { self.first } else { self.first + self.extra };
+        if self.pos == self.first + self.extra && self.fail_at_end {
+            return Err(std::io::Error::from(std::io::ErrorKind::BrokenPipe));   // a hard error after all the data
+        }
         let n = ((end - self.pos) as usize).min(buf.len());   // short read at the seam, like `Chain`
         for (i, b) in buf[..n].iter_mut().enumerate() { *b = ((self.pos as usize + i) as u8).wrapping_mul(31) ^ ((self.pos >> 8) as u8); }
         self.pos += n as u64;
@@ -441,24 +444,26 @@ impl Read for SeamReader {
 pub fn stream_hugestream(out: &mut impl Write) {
     if cfg!(debug_assertions) { return; }
     const MAX: u64 = 4_224_281_216;
-    let cases: [(usize, u64, u64); 3] = [(1, MAX, 0), (1, MAX, 16), (4, MAX, 1)];
+    let cases: [(usize, u64, u64, bool); 4] = [(1, MAX, 0, false), (1, MAX, 16, false), (4, MAX, 1, false), (3, MAX, 70_000, true)];
     let lines: Vec<String> = std::thread::scope(|sc| {
-        let hs: Vec<_> = cases.iter().map(|&(vi, first, extra)| sc.spawn(move || {
+        let hs: Vec<_> = cases.iter().map(|&(vi, first, extra, fail)| sc.spawn(move || {
             with_variant!(vi, T => {
                 let r = guarded(|| {
-                    let mut rd = SeamReader { first, extra, pos: 0 };
+                    let mut rd = SeamReader { first, extra, pos: 0, fail_at_end: fail };
                     match tlsh::hash_stream_for::<T, _>(&mut rd) {
                         Ok(h) => format!("ok:{}", h.length().value()),
                         Err(tlsh::GeneratorOrIOError::GeneratorError(tlsh::GeneratorError::TooLargeInput)) => "toolarge".to_string(),
+                        Err(tlsh::GeneratorOrIOError::IOError(_)) => "ioerr".to_string(),
                         Err(e) => format!("other:{:?}", e).replace(' ', "_"),
                     }
                 });
                 let res = match r { Ok(s) => s, Err(()) => "panic".to_string() };
-                let head = format!("hstream {} {} {}", vi, first, extra);
-                let expect = if first + extra > MAX { "toolarge".to_string() } else { "ok:169".to_string() };
+                let head = format!("{} {} {} {} {}", if fail { "hstreamerr" } else { "hstream" }, vi, first, extra, fail as u8);
+                let expect = if fail { "ioerr".to_string() } else if first + extra > MAX { "toolarge".to_string() } else { "ok:169".to_string() };
                 let mut l = format!("{} => {}", head, res);
                 if res != expect {
-                    l.push_str(&format!("\nORACLE C11 stream-of-{}-bytes-gives-{}-instead-of-{} {}\nORACLE C12 stream-did-not-hash-all-delivered-bytes {}", first + extra, res, expect, head, head));
+                    if !fail { l.push_str(&format!("\nORACLE C11 stream-of-{}-bytes-gives-{}-instead-of-{} {}", first + extra, res, expect, head)); }
+                    l.push_str(&format!("\nORACLE C12 stream-result-is-{}-instead-of-{} {}", res, expect, head));
                 }
                 l
             })
